@@ -10,7 +10,7 @@ from gvsim.sim import Raised, Sim, sut
 
 PROP = 'C15'
 TIERS = {'quick': {'runs': 1200, 'wall': 100}, 'thorough': {'runs': 30000, 'wall': 1500}}
-REACH = ['agent_in_corner', 'holding_item']  # probes / faults that must fire in every batch (reach gaps are reported in the evidence)
+REACH = ['agent_in_corner', 'holding_item', 'gym_layer_checked', 'gym_representation_switched']  # probes / faults that must fire in every batch (reach gaps are reported in the evidence)
 RULE = ('one run = one client: a declared space (random subset of the registered object types - no Box when the state is '
         'represented -, random colour subset, grid >= 2x2, odd view width) with a member world that uses every declared '
         'type, door status and colour, or a shipped configuration; a seeded history walks the agent into corners, picks / '
@@ -86,6 +86,9 @@ def generate(seed, run, tier):
             t = r.choice(['Key', 'Door', 'Box', 'Floor'])
             for _ in range(r.randint(1, 6)):
                 ops.append([0, 'guided', 'facing', t, r.randrange(64)])
+        if r.random() < 0.12:
+            # the gym layer: switch the installed representation, then convert again
+            ops.append([0, 'gym_switch', r.choice(['observation', 'observation', 'state']), r.choice(REPRS)])
         ops.append([0, 'convert'])
     rec['ops'] = ops
     return rec
@@ -177,6 +180,52 @@ class ReprSim(Sim):
             else:
                 self.reps.append(('observation', name, o, outer_space_to_gym_space(o.space)))
 
+    def _gym(self, cl):
+        """a gym environment around the same inner environment (built on first use)"""
+        if not hasattr(self, 'gym'):
+            from gym_gridverse.gym import GymEnvironment
+            from gym_gridverse.outer_env import OuterEnv
+            from gym_gridverse.representations.observation_representations import make_observation_representation
+
+            g = sut(lambda: GymEnvironment(OuterEnv(cl.env, observation_representation=make_observation_representation('default', cl.env.observation_space))))
+            self.gym = None if isinstance(g, Raised) else g
+            self.gym_names = {'observation': 'default', 'state': None}
+        return self.gym
+
+    def op_gym_switch(self, cl, which, name):
+        g = self._gym(cl)
+        if g is None:
+            return
+        r = sut(getattr(g, f'set_{which}_representation'), name)
+        if isinstance(r, Raised):
+            if which == 'observation' or 'Box' not in cl.mspec['types']:
+                self.violate('repr', 'gym_switch_raised', f'gym:{which}:{name}', r.type, repr(r))
+            return
+        self.gym_names[which] = name
+        self.ctx.fault('gym_representation_switched')
+
+    def check_gym(self, cl):
+        """what the gym layer hands out lies in the space it advertises at that moment"""
+        from gvsim.props.c20 import in_gym_space, snap
+
+        g = self._gym(cl)
+        if g is None or not cl.started:
+            return
+        for which in ('observation', 'state'):
+            name = self.gym_names[which]
+            if name is None:
+                continue
+            arr = snap(sut(lambda: getattr(g, which)))
+            if isinstance(arr, Raised):
+                self.violate('repr', 'gym_read_raised', f'gym:{which}:{name}', arr.type, repr(arr))
+                return
+            ok, why = in_gym_space(getattr(g, which + '_space'), arr)
+            self.ctx.count('cases')
+            if not ok:
+                self.violate('repr', 'outside_advertised_gym_space', f'gym:{which}:{name}', why, f'GymEnvironment.{which} lies outside GymEnvironment.{which}_space ({why}) with representation {name}')
+                return
+        self.ctx.probe('gym_layer_checked')
+
     def op_convert(self, cl):
         from gvsim.lib import sha, state_key
 
@@ -198,6 +247,7 @@ class ReprSim(Sim):
                 k = state_key(x)
                 if any(c[0] not in ('Floor', 'Wall', 'Hidden') for row in k[2] for c in row):
                     self.ctx.distinct.add(sha((what, name, k)))
+        self.check_gym(cl)
         w = s.grid.shape
         p = s.agent.position
         if (p.y in (0, w.height - 1)) and (p.x in (0, w.width - 1)):
